@@ -26,7 +26,7 @@ def floors(tier):
     f = {'distinct_nontrivial': 2500 if tier == 'quick' else 40000, 'variant_permuted': 600, 'variant_padded': 600,
          'variant_dense': 100, 'exception_parity_checked': 20}
     for o in ALLOPS:
-        f['op_' + o] = 25 if tier == 'quick' else 300
+        f['op_' + o] = (25 if tier == 'quick' else 300) if 'polarity' not in o else (10 if tier == 'quick' else 100)
     return f
 
 
@@ -36,7 +36,7 @@ def plan(tier, seed):
     if tier == 'quick':
         cfgs = gen.sig_orderings(1, 2) + rng.sample(gen.sig_orderings(3, 3), 12) + rng.sample(gen.pqr_all(4, 4), 5)
         cfgs += [gen.random_custom_cfg(rng, rng.choice((2, 3, 3))) for _ in range(6)] + gen.NAMED[:2]
-        per = 2
+        per = 5
         nshards = 16
     else:
         cfgs = gen.sig_orderings(1, 3) + gen.pqr_all(4, 4) + rng.sample(gen.pqr_all(5, 5), 6)
